@@ -13,6 +13,7 @@ Driver requests for L3–L5 (container fragment):
     cst   ::= (l <kind> <text>) | (L (item…) <closeGap>) | (S <t|f> <recGap> (item…) <closeGap>)
             | (P (item…) <closeGap>) | (A cst (gc…) <gap> cst)
             | (K <w|a> (gc…) <g1> cst (gc…) <g2> (gc…) <g3> cst)      (`with` / `assert`)
+            | (D cst (gc…) <g1> <gd> (<attr>…))                       (select `e.a.b`, no default)
     item  ::= (c <gap> <text>) | (e <gap> cst)
             | (b <gap> <name> (gc…) <g1> (gc…) <g2> cst (gc…) <g3>)
     gc    ::= (<gap> <text>)
@@ -25,6 +26,13 @@ open Nima Nima.Frag
 
 def decKind : String → Option LeafKind
   | "i" => some .ident | "n" => some .int | "f" => some .float | "s" => some .str | "p" => some .path
+  | _ => none
+
+def decTexts : List SExp → Option (List Text)
+  | [] => some []
+  | .atom t :: rest => do
+      let t ← decText t; let r ← decTexts rest
+      pure (t :: r)
   | _ => none
 
 def decGC : List SExp → Option GC
@@ -46,6 +54,8 @@ partial def decCst : SExp → Option Cst
   | .list [.atom "K", .atom w, .list c1, .atom g1, h, .list c2, .atom g2, .list c3, .atom g3, b] => do
       pure (.kw (w == "w") (← decGC c1) (← decText g1) (← decCst h) (← decGC c2) (← decText g2) (← decGC c3)
               (← decText g3) (← decCst b))
+  | .list [.atom "D", e, .list c1, .atom g1, .atom gd, .list attrs] => do
+      pure (.sel (← decCst e) (← decGC c1) (← decText g1) (← decText gd) (← decTexts attrs))
   | _ => none
 partial def decItems : List SExp → Option Items
   | [] => some .nil
@@ -74,6 +84,7 @@ partial def encCst : Cst → SExp
   | .kw w c1 g1 h c2 g2 c3 g3 b =>
     .list [.atom "K", .atom (if w then "w" else "a"), encGC c1, sText g1, encCst h, encGC c2, sText g2, encGC c3,
       sText g3, encCst b]
+  | .sel e c1 g1 gd attrs => .list [.atom "D", encCst e, encGC c1, sText g1, sText gd, .list (attrs.map sText)]
 partial def encItems : Items → List SExp
   | .nil => []
   | .cmt g t rest => .list [.atom "c", sText g, sText t] :: encItems rest
